@@ -6,7 +6,8 @@
 
 use crate::canon::{cr, cv, expected_type_error, E, R, V};
 use crate::env::{
-    injected_error, sentinel, CtxKind, Ev, FaultKind, Outcome, Setup, FN_NAMES, UNKNOWN_FN,
+    injected_error, sentinel, CtxKind, Ev, FaultKind, Outcome, Setup, FN_NAMES, SHADOW_NAMES,
+    UNKNOWN_FN,
 };
 use crate::prog::mk;
 use evalexpr::{
@@ -20,6 +21,9 @@ use std::collections::BTreeMap;
 pub enum Skip {
     Arity(&'static str),
     UnknownOperator,
+    /// the library panicked while evaluating a pure operator / builtin in isolation: that is
+    /// C01's subject (never panics), not an ordering question - the program is not judged
+    DelegatePanic,
 }
 
 pub enum RefErr {
@@ -77,11 +81,15 @@ impl Delegate {
         let template = mk(op.clone(), children);
         // through the mutable evaluator: the C08 oracle must not depend on the read-only path, and
         // C11's projection is defined in terms of the mutable evaluation
-        Ok(template.eval_with_context_mut(&mut self.ctx))
+        let ctx = &mut self.ctx;
+        std::panic::catch_unwind(std::panic::AssertUnwindSafe(|| {
+            template.eval_with_context_mut(ctx)
+        }))
+        .map_err(|_| Skip::DelegatePanic)
     }
 
     /// Calls builtin function `name` (builtins enabled, no user functions) on `arg`.
-    pub fn builtin(&mut self, name: &str, arg: &V) -> R {
+    pub fn builtin(&mut self, name: &str, arg: &V) -> Result<R, Skip> {
         self.calls += 1;
         self.ctx.clear_variables();
         self.ctx
@@ -98,7 +106,11 @@ impl Delegate {
                 vec![],
             )],
         );
-        template.eval_with_context_mut(&mut self.ctx)
+        let ctx = &mut self.ctx;
+        std::panic::catch_unwind(std::panic::AssertUnwindSafe(|| {
+            template.eval_with_context_mut(ctx)
+        }))
+        .map_err(|_| Skip::DelegatePanic)
     }
 }
 
@@ -179,23 +191,25 @@ impl<'a> RefEnv<'a> {
         Ok(())
     }
 
-    fn call(&mut self, name: &str, arg: &V, d: &mut Delegate) -> R {
+    fn call(&mut self, name: &str, arg: &V, d: &mut Delegate) -> Result<R, Skip> {
         let behaviour = self.fns.get(name).cloned();
         let registered = behaviour.is_some();
         if self.kind.records_all_calls() || (self.kind == CtxKind::Bare && registered) {
             if let Some(idx) =
                 self.record(Ev::Call(name.to_string(), cv(arg)), FaultKind::CallError)
             {
-                return Err(injected_error(idx));
+                return Ok(Err(injected_error(idx)));
             }
         }
         if let Some(b) = behaviour {
-            return Ok(sentinel(&b, arg));
+            return Ok(Ok(sentinel(&b, arg)));
         }
         if !self.builtins_disabled {
             return d.builtin(name, arg);
         }
-        Err(EvalexprError::FunctionIdentifierNotFound(name.to_string()))
+        Ok(Err(EvalexprError::FunctionIdentifierNotFound(
+            name.to_string(),
+        )))
     }
 
     pub fn snapshot_vars(&self) -> Vec<(String, String)> {
@@ -208,7 +222,11 @@ impl<'a> RefEnv<'a> {
         }
         let probe = Value::Int(41);
         let mut out = Vec::new();
-        for n in FN_NAMES.iter().chain([UNKNOWN_FN].iter()) {
+        for n in FN_NAMES
+            .iter()
+            .chain([UNKNOWN_FN, "typeof", "max"].iter())
+            .chain(SHADOW_NAMES.iter())
+        {
             let r: R = if let Some(b) = self.fns.get(*n) {
                 Ok(sentinel(b, &probe))
             } else {
@@ -239,6 +257,11 @@ pub fn is_assignment_operator(op: &Operator) -> bool {
 
 pub fn tree_has_assignment(node: &Node) -> bool {
     is_assignment_operator(node.operator()) || node.children().iter().any(tree_has_assignment)
+}
+
+pub fn tree_has_op_assignment(node: &Node) -> bool {
+    (is_assignment_operator(node.operator()) && *node.operator() != Operator::Assign)
+        || node.children().iter().any(tree_has_op_assignment)
 }
 
 fn plain_of(op: &Operator) -> Option<Operator> {
@@ -306,7 +329,7 @@ pub fn ref_eval(
             if args.len() != 1 {
                 return Err(RefErr::Skip(Skip::Arity("function without exactly one argument")));
             }
-            Ok(env.call(identifier, &args[0], d)?)
+            Ok(env.call(identifier, &args[0], d).map_err(RefErr::Skip)??)
         },
         Assign | AddAssign | SubAssign | MulAssign | DivAssign | ModAssign | ExpAssign
         | AndAssign | OrAssign => {
@@ -351,6 +374,7 @@ pub fn run_ref(
     setup: &Setup,
     kind: CtxKind,
     immutable: bool,
+    typed: usize,
     faults: &[usize],
     d: &mut Delegate,
 ) -> Result<Outcome, Skip> {
@@ -360,6 +384,7 @@ pub fn run_ref(
         Err(RefErr::Lib(e)) => Err(e),
         Err(RefErr::Skip(s)) => return Err(s),
     };
+    let result = crate::env::project_typed(result, typed);
     Ok(Outcome {
         result: cr(&result),
         vars: env.snapshot_vars(),
